@@ -79,6 +79,14 @@ fn case_line(t: &mut Tape, st: &mut Stats) -> Verdict {
         let i2 = ins.clone();
         st.sample(|| json!({"line": tx, "instruction": format!("{:?}", i2)}));
     }
+    // a parse does not depend on what was parsed before it in the same process: one case in eight first has a
+    // malformed text refused (a C08 kind) on this thread
+    if t.chance(1, 8) {
+        let (bad, _, _) = crate::props::c08::malformed_line(t);
+        if !bad.contains("!include_files") && parser::parse_text(&bad).is_err() {
+            st.class("parsed-right-after-a-refused-text");
+        }
+    }
     let parsed = parser::parse_text(&text);
     let r = match parsed {
         Err(e) => Err(format!("error {:?}", e)),
@@ -160,7 +168,7 @@ fn case_script(t: &mut Tape, st: &mut Stats) -> Verdict {
 pub fn property() -> Property {
     Property {
         id: "C01",
-        rule: "instructions (label?/output?/command?/args over hazard-biased arbitrary Unicode) rendered with random documented-syntax choices and parsed back; a case is non-trivial when at least one argument needed quotes or an escape, or the line has a comment or non-canonical spacing; distinct by (instruction, rendered text) hash",
+        rule: "instructions (label?/output?/command?/args over hazard-biased arbitrary Unicode) rendered with random documented-syntax choices and parsed back (one case in eight right after a malformed text was refused on the same thread); a case is non-trivial when at least one argument needed quotes or an escape, or the line has a comment or non-canonical spacing; distinct by (instruction, rendered text) hash",
         assumptions: &[
             "names (label/output/command) are free of whitespace, control characters, '#', '\\', '\"'; output/command free of '='; first token does not start with '!' or (without label) ':'",
             "undocumented spellings accepted by the parser are not emitted",
@@ -173,7 +181,7 @@ pub fn property() -> Property {
                     Tier::Thorough => Plan::Random { cases: 20_000_000, max_len: 400 },
                 },
                 case: case_line,
-                min_classes: &[("escape-before-closing-quote", 500), ("hash-inside-quotes", 500), ("eq-leading-first-arg", 100), ("crlf", 1000), ("label-only", 500), ("output-without-command", 500)],
+                min_classes: &[("escape-before-closing-quote", 500), ("hash-inside-quotes", 500), ("eq-leading-first-arg", 100), ("crlf", 1000), ("label-only", 500), ("output-without-command", 500), ("parsed-right-after-a-refused-text", 10000)],
             },
             Section {
                 name: "scripts",
